@@ -83,11 +83,14 @@ ApplyEventsO(b0, doc, evs, orig) ==      \* orig: key -> schema first found ther
                 \* so a second name for the same key clones what the first rewrite left there (a $ref); elsewhere the original
                 slice == Len(k) >= 2 /\ Has(doc, Front(k)) /\ IsList(At(doc, Front(k)))
                 sch == IF k \in DOMAIN orig /\ ~slice THEN orig[k] ELSE IF Has(doc, k) THEN At(doc, k) ELSE Empty
-            IN ApplyEventsO(b0, NameSchema(doc, k, e.name, MarkerFor(k), sch), Tail(evs), (k :> sch) @@ orig)
+            IN ApplyEventsO(b0, NameWithDependants(doc, k, e.name, MarkerFor(k), sch), Tail(evs), (k :> sch) @@ orig)
        ELSE ApplyEventsO(b0,
               CASE e.ev = "import.new"   -> ImportNew(b0, doc, e.target, e.name, Range(e.keys))
                 [] e.ev = "import.known" -> ImportKnown(doc, e.name, Range(e.keys))
-                [] OTHER                 -> doc,
+                [] e.ev = "pointer.top"  -> PointerTop(doc, e.keys[1], e.target)
+                [] e.ev = "pointer.expanded" -> PointerExpanded(doc, e.keys[1], e.target)
+                [] e.ev = "strip.one"    -> StripOne(doc, Tail(e.target), e.parents)
+                [] OTHER                 -> doc,          \* pointer.named: the preceding name event did the work
               Tail(evs), orig)
 ApplyEvents(b0, doc, evs) == ApplyEventsO(b0, doc, evs, <<>>)
 HasPointerEvents(rec) == \E i \in DOMAIN rec.events : rec.events[i].ev \in {"pointer.top", "pointer.named", "pointer.expanded", "strip.one"}
@@ -101,7 +104,9 @@ StepExpected(rec, b0, i) ==      \* the document the constructive model predicts
        [] cur.ev = "phase.dropShared" -> IF rec.ru THEN DropShared(prev) ELSE prev
        [] cur.ev = "round.import"     -> ApplyEvents(b0, prev, EventsAt(rec, i))
        [] cur.ev = "phase.import"     -> prev
-       [] cur.ev = "phase.nameInline" -> IF HasPointerEvents(rec) \/ rec.anon THEN skip ELSE ApplyEvents(b0, prev, EventsAt(rec, i))
+       [] cur.ev = "phase.nameInline" -> ApplyEvents(b0, prev, EventsAt(rec, i))
+       [] cur.ev \in {"round.namePointers", "round.stripOAIGen"} -> ApplyEvents(b0, prev, EventsAt(rec, i))
+       [] cur.ev = "phase.strip" -> prev
        [] cur.ev = "round.removeUnused" -> RemovePass(prev)
        [] cur.ev = "phase.removeUnused" -> prev
        [] OTHER -> skip          \* pointer naming / OAIGen de-duplication: relational contracts only
